@@ -19,6 +19,7 @@ Local Open Scope nat_scope.
 Definition loc := nat.    (* droplet object *)
 Definition sloc := nat.   (* storage record *)
 Definition cid := nat.    (* index of a collection in its table *)
+Definition tloc := nat.   (* a Python list object holding times *)
 
 (* ------------------------------------------------------------------------------------ *)
 (* droplet values                                                                         *)
@@ -87,9 +88,11 @@ Definition set_flat (v : value) (k : nat) (q : Q) : option value :=
 (* ------------------------------------------------------------------------------------ *)
 
 Record emul := mkE { e_dtype : option dtype; e_mem : list loc }.
-(* times and members are TWO lists, as in the implementation; that they stay aligned is a theorem *)
-Record tcourse := mkTC { tc_times : list Q; tc_ems : list cid }.
-Record track := mkTR { tr_times : list Q; tr_drops : list loc }.
+(* times and members are TWO lists, as in the implementation; that they stay aligned is a theorem.
+   The times list is an OBJECT of its own (a location in [tlists]): two collections, or a collection
+   and a caller variable, could hold the same list object. *)
+Record tcourse := mkTC { tc_tl : tloc; tc_ems : list cid }.
+Record track := mkTR { tr_tl : tloc; tr_drops : list loc }.
 
 Record heap := mkH {
   store : list value;        (* sloc -> value *)
@@ -99,19 +102,23 @@ Record heap := mkH {
   tcs   : list tcourse;      (* time courses *)
   trs   : list track;        (* droplet tracks *)
   arrs  : list (list sloc);  (* arrays returned by get_linked_data: their rows *)
-  tls   : list (list nat)    (* DropletTrackList objects: references to tracks *)
+  tls   : list (list nat);   (* DropletTrackList objects: references to tracks *)
+  tlists : list (list Q);    (* tloc -> content of a times list object *)
+  tvars : list tloc          (* caller variables holding a Python list of times *)
 }.
 
-Definition emp : heap := mkH [] [] [] [] [] [] [] [].
+Definition emp : heap := mkH [] [] [] [] [] [] [] [] [] [].
 
-Definition with_store h x := mkH x (objs h) (hnd h) (ems h) (tcs h) (trs h) (arrs h) (tls h).
-Definition with_objs h x := mkH (store h) x (hnd h) (ems h) (tcs h) (trs h) (arrs h) (tls h).
-Definition with_hnd h x := mkH (store h) (objs h) x (ems h) (tcs h) (trs h) (arrs h) (tls h).
-Definition with_ems h x := mkH (store h) (objs h) (hnd h) x (tcs h) (trs h) (arrs h) (tls h).
-Definition with_tcs h x := mkH (store h) (objs h) (hnd h) (ems h) x (trs h) (arrs h) (tls h).
-Definition with_trs h x := mkH (store h) (objs h) (hnd h) (ems h) (tcs h) x (arrs h) (tls h).
-Definition with_arrs h x := mkH (store h) (objs h) (hnd h) (ems h) (tcs h) (trs h) x (tls h).
-Definition with_tls h x := mkH (store h) (objs h) (hnd h) (ems h) (tcs h) (trs h) (arrs h) x.
+Definition with_store h x := mkH x (objs h) (hnd h) (ems h) (tcs h) (trs h) (arrs h) (tls h) (tlists h) (tvars h).
+Definition with_objs h x := mkH (store h) x (hnd h) (ems h) (tcs h) (trs h) (arrs h) (tls h) (tlists h) (tvars h).
+Definition with_hnd h x := mkH (store h) (objs h) x (ems h) (tcs h) (trs h) (arrs h) (tls h) (tlists h) (tvars h).
+Definition with_ems h x := mkH (store h) (objs h) (hnd h) x (tcs h) (trs h) (arrs h) (tls h) (tlists h) (tvars h).
+Definition with_tcs h x := mkH (store h) (objs h) (hnd h) (ems h) x (trs h) (arrs h) (tls h) (tlists h) (tvars h).
+Definition with_trs h x := mkH (store h) (objs h) (hnd h) (ems h) (tcs h) x (arrs h) (tls h) (tlists h) (tvars h).
+Definition with_arrs h x := mkH (store h) (objs h) (hnd h) (ems h) (tcs h) (trs h) x (tls h) (tlists h) (tvars h).
+Definition with_tls h x := mkH (store h) (objs h) (hnd h) (ems h) (tcs h) (trs h) (arrs h) x (tlists h) (tvars h).
+Definition with_tlists h x := mkH (store h) (objs h) (hnd h) (ems h) (tcs h) (trs h) (arrs h) (tls h) x (tvars h).
+Definition with_tvars h x := mkH (store h) (objs h) (hnd h) (ems h) (tcs h) (trs h) (arrs h) (tls h) (tlists h) x.
 
 Definition obj_of (h : heap) (l : loc) : option sloc := nth_error (objs h) l.
 Definition val_of (h : heap) (l : loc) : option value :=
@@ -132,6 +139,10 @@ Definition set_tr h k x := with_trs h (upd (trs h) k x).
 Definition push_tr h x := with_trs h (trs h ++ [x]).
 Definition push_arr h r := with_arrs h (arrs h ++ [r]).
 Definition set_store h s v := with_store h (upd (store h) s v).
+Definition times_of (h : heap) (tl : tloc) : option (list Q) := nth_error (tlists h) tl.
+(* a new list object; its location is [length (tlists h)] *)
+Definition alloc_tl h (ts : list Q) := with_tlists h (tlists h ++ [ts]).
+Definition set_tl h (tl : tloc) (ts : list Q) := with_tlists h (upd (tlists h) tl ts).
 
 (* ------------------------------------------------------------------------------------ *)
 (* operations and outcomes                                                                *)
@@ -170,7 +181,14 @@ Inductive op :=
 | OTrSlice (k lo hi : nat)
 | OTrGet (k i : nat)                                 (* H.append(K[k][i]): the member itself *)
 | OTlNew (ks : list nat)                             (* L.append(DropletTrackList([K[k]...])) *)
-| OTlRemoveShort (l : nat) (q : Q).
+| OTlRemoveShort (l : nat) (q : Q)
+| OTcCopy (t : nat)                                  (* T.append(EmulsionTimeCourse(T[t])): copy constructor *)
+| OTcNewL (cs : list nat) (j : nat)                  (* T.append(EmulsionTimeCourse([E[c]...], times=TV[j])): caller-owned list *)
+| OTrCopy (k : nat)                                  (* K.append(DropletTrack(K[k])) *)
+| OTrNewL (is : list nat) (j : nat)                  (* K.append(DropletTrack([H[i]...], times=TV[j])) *)
+| OTlistNew (ts : list Q)                            (* TV.append([...]): the caller creates a list of times *)
+| OTlistAppend (j : nat) (q : Q)                     (* TV[j].append(q) *)
+| OTlistSet (j i : nat) (q : Q).                     (* TV[j][i] = q *)
 
 (* ---- droplets ---- *)
 
@@ -434,29 +452,56 @@ Definition new_cids (h : heap) (n : nat) : list cid := seq (length (ems h)) n.
 Definition default_time (ts : list Q) : Q :=
   match last_opt ts with None => 0%Q | Some x => (x + 1)%Q end.
 
+(* the constructor: copies of the emulsions, then  self.times = list(times)  (a NEW list object),
+   then the length check *)
+Definition build_tc h (es : list emul) (ts : list Q) : heap * outcome :=
+  match copy_ems h es with
+  | None => (h, Err EDangling)
+  | Some h1 =>
+    if Nat.eqb (length ts) (length es)
+    then (push_tc (alloc_tl h1 ts) (mkTC (length (tlists h)) (new_cids h (length es))), Ok)
+    else (h, Err EValue)
+  end.
+
 Definition exec_tcnew h (cs : list nat) (times : option (list Q)) : heap * outcome :=
   match mapM (nth_error (ems h)) cs with
   | None => (h, Err EIndex)
-  | Some es => match copy_ems h es with
-               | None => (h, Err EDangling)
-               | Some h1 =>
-                 let ts := match times with None => range_q (length es) | Some ts => ts end in
-                 if Nat.eqb (length ts) (length es) then (push_tc h1 (mkTC ts (new_cids h (length es))), Ok)
-                 else (h, Err EValue)
-               end
+  | Some es => build_tc h es (match times with None => range_q (length es) | Some ts => ts end)
+  end.
+
+(* times given as a list object the caller keeps: its CONTENT is copied *)
+Definition exec_tcnewl h (cs : list nat) (j : nat) : heap * outcome :=
+  match mapM (nth_error (ems h)) cs, nth_error (tvars h) j with
+  | Some es, Some tl => match times_of h tl with
+                        | None => (h, Err EDangling)
+                        | Some ts => build_tc h es ts
+                        end
+  | _, _ => (h, Err EIndex)
+  end.
+
+(* EmulsionTimeCourse(other): emulsions and times are taken from the other object, both are copied *)
+Definition exec_tccopy h t : heap * outcome :=
+  match nth_error (tcs h) t with
+  | None => (h, Err EIndex)
+  | Some tc =>
+    match times_of h (tc_tl tc), mapM (nth_error (ems h)) (tc_ems tc) with
+    | Some ts, Some es => build_tc h es ts
+    | _, _ => (h, Err EDangling)
+    end
   end.
 
 Definition exec_tcappend h t c (time : option Q) (copy : bool) : heap * outcome :=
   match nth_error (tcs h) t, nth_error (ems h) c with
   | Some tc, Some e =>
-    match vals_of h (e_mem e) with
-    | None => (h, Err EDangling)
-    | Some vs =>
+    match vals_of h (e_mem e), times_of h (tc_tl tc) with
+    | Some vs, Some ts =>
       (* Emulsion(emulsion) copies; with copy=True a second copy is made of the first one:
-         either way the stored emulsion and its droplets are fresh *)
+         either way the stored emulsion and its droplets are fresh.  self.times.append(time)
+         mutates the times list object in place *)
       let h1 := new_em_vals h vs in
-      let tm := match time with Some q => q | None => default_time (tc_times tc) end in
-      (set_tc h1 t (mkTC (tc_times tc ++ [tm]) (tc_ems tc ++ [length (ems h)])), Ok)
+      let tm := match time with Some q => q | None => default_time ts end in
+      (set_tc (set_tl h1 (tc_tl tc) (ts ++ [tm])) t (mkTC (tc_tl tc) (tc_ems tc ++ [length (ems h)])), Ok)
+    | _, _ => (h, Err EDangling)
     end
   | _, _ => (h, Err EIndex)
   end.
@@ -471,22 +516,17 @@ Definition exec_tcslice h t lo hi : heap * outcome :=
   match nth_error (tcs h) t with
   | None => (h, Err EIndex)
   | Some tc =>
-    match mapM (nth_error (ems h)) (slice lo hi (tc_ems tc)) with
-    | None => (h, Err EDangling)
-    | Some es => match copy_ems h es with
-                 | None => (h, Err EDangling)
-                 | Some h1 =>
-                   let ts := slice lo hi (tc_times tc) in
-                   if Nat.eqb (length ts) (length es) then (push_tc h1 (mkTC ts (new_cids h (length es))), Ok)
-                   else (h, Err EValue)
-                 end
+    match times_of h (tc_tl tc), mapM (nth_error (ems h)) (slice lo hi (tc_ems tc)) with
+    | Some ts, Some es => build_tc h es (slice lo hi ts)
+    | _, _ => (h, Err EDangling)
     end
   end.
 
+(* clear():  self.emulsions = []; self.times = []  -- two NEW list objects *)
 Definition exec_tcclear h t : heap * outcome :=
   match nth_error (tcs h) t with
   | None => (h, Err EIndex)
-  | Some _ => (set_tc h t (mkTC [] []), Ok)
+  | Some _ => (set_tc (alloc_tl h []) t (mkTC (length (tlists h)) []), Ok)
   end.
 
 (* ---- tracks ---- *)
@@ -494,32 +534,55 @@ Definition exec_tcclear h t : heap * outcome :=
 (* DropletTrack.append compares the dimension with that of the last member *)
 Definition same_dims (vs : list value) : bool := all_eqb Nat.eqb (map dim vs).
 
+(* the constructor: append (copy) every droplet, then  self.times = list(times), then the length check *)
+Definition build_tr h (vs : list value) (ts : list Q) : heap * outcome :=
+  if same_dims vs then
+    if Nat.eqb (length ts) (length vs)
+    then (push_tr (alloc_tl (alloc h vs) ts) (mkTR (length (tlists h)) (new_locs h (length vs))), Ok)
+    else (h, Err EValue)
+  else (h, Err EValue).
+
 Definition exec_trnew h (is : list nat) (times : option (list Q)) : heap * outcome :=
   match mapM (nth_error (hnd h)) is with
   | None => (h, Err EIndex)
   | Some ls =>
     match vals_of h ls with
     | None => (h, Err EDangling)
-    | Some vs =>
-      if same_dims vs then
-        let ts := match times with None => range_q (length vs) | Some ts => ts end in
-        if Nat.eqb (length ts) (length vs) then (push_tr (alloc h vs) (mkTR ts (new_locs h (length vs))), Ok)
-        else (h, Err EValue)
-      else (h, Err EValue)
+    | Some vs => build_tr h vs (match times with None => range_q (length vs) | Some ts => ts end)
+    end
+  end.
+
+Definition exec_trnewl h (is : list nat) (j : nat) : heap * outcome :=
+  match mapM (nth_error (hnd h)) is, nth_error (tvars h) j with
+  | Some ls, Some tl =>
+    match vals_of h ls, times_of h tl with
+    | Some vs, Some ts => build_tr h vs ts
+    | _, _ => (h, Err EDangling)
+    end
+  | _, _ => (h, Err EIndex)
+  end.
+
+Definition exec_trcopy h k : heap * outcome :=
+  match nth_error (trs h) k with
+  | None => (h, Err EIndex)
+  | Some tr =>
+    match vals_of h (tr_drops tr), times_of h (tr_tl tr) with
+    | Some vs, Some ts => build_tr h vs ts
+    | _, _ => (h, Err EDangling)
     end
   end.
 
 Definition exec_trappend h k i (time : option Q) : heap * outcome :=
   match nth_error (trs h) k, nth_error (hnd h) i with
   | Some tr, Some l =>
-    match val_of h l, mapM (val_of h) (tr_drops tr) with
-    | Some v, Some dvs =>
+    match val_of h l, mapM (val_of h) (tr_drops tr), times_of h (tr_tl tr) with
+    | Some v, Some dvs, Some ts =>
       let okdim := match last_opt dvs with None => true | Some vl => Nat.eqb (dim v) (dim vl) end in
       if okdim then
-        let tm := match time with Some q => q | None => default_time (tr_times tr) end in
-        (set_tr (alloc h [v]) k (mkTR (tr_times tr ++ [tm]) (tr_drops tr ++ new_locs h 1)), Ok)
+        let tm := match time with Some q => q | None => default_time ts end in
+        (set_tr (set_tl (alloc h [v]) (tr_tl tr) (ts ++ [tm])) k (mkTR (tr_tl tr) (tr_drops tr ++ new_locs h 1)), Ok)
       else (h, Err EValue)
-    | _, _ => (h, Err EDangling)
+    | _, _, _ => (h, Err EDangling)
     end
   | _, _ => (h, Err EIndex)
   end.
@@ -534,14 +597,9 @@ Definition exec_trslice h k lo hi : heap * outcome :=
   match nth_error (trs h) k with
   | None => (h, Err EIndex)
   | Some tr =>
-    match vals_of h (slice lo hi (tr_drops tr)) with
-    | None => (h, Err EDangling)
-    | Some vs =>
-      if same_dims vs then
-        let ts := slice lo hi (tr_times tr) in
-        if Nat.eqb (length ts) (length vs) then (push_tr (alloc h vs) (mkTR ts (new_locs h (length vs))), Ok)
-        else (h, Err EValue)
-      else (h, Err EValue)
+    match vals_of h (slice lo hi (tr_drops tr)), times_of h (tr_tl tr) with
+    | Some vs, Some ts => build_tr h vs (slice lo hi ts)
+    | _, _ => (h, Err EDangling)
     end
   end.
 
@@ -562,7 +620,7 @@ Definition duration (ts : list Q) : Q :=
   | _, _ => 0%Q
   end.
 
-Definition keeps_track (q : Q) (tr : track) : bool := negb (Qle_bool (duration (tr_times tr)) q).
+Definition keeps_times (q : Q) (ts : list Q) : bool := negb (Qle_bool (duration ts) q).
 
 Definition exec_tlnew h (ks : list nat) : heap * outcome :=
   match mapM (nth_error (trs h)) ks with
@@ -575,7 +633,34 @@ Definition exec_tlremove h l q : heap * outcome :=
   | None => (h, Err EIndex)
   | Some ks => match mapM (nth_error (trs h)) ks with
                | None => (h, Err EDangling)
-               | Some ts => (with_tls h (upd (tls h) l (filter_by (map (keeps_track q) ts) ks)), Ok)
+               | Some trl =>
+                 match mapM (fun tr => times_of h (tr_tl tr)) trl with
+                 | None => (h, Err EDangling)
+                 | Some tss => (with_tls h (upd (tls h) l (filter_by (map (keeps_times q) tss) ks)), Ok)
+                 end
+               end
+  end.
+
+(* ---- lists of times held by the caller ---- *)
+
+Definition exec_tlistnew h (ts : list Q) : heap * outcome :=
+  (with_tvars (alloc_tl h ts) (tvars h ++ [length (tlists h)]), Ok).
+
+Definition exec_tlistappend h j q : heap * outcome :=
+  match nth_error (tvars h) j with
+  | None => (h, Err EIndex)
+  | Some tl => match times_of h tl with
+               | None => (h, Err EDangling)
+               | Some ts => (set_tl h tl (ts ++ [q]), Ok)
+               end
+  end.
+
+Definition exec_tlistset h j i q : heap * outcome :=
+  match nth_error (tvars h) j with
+  | None => (h, Err EIndex)
+  | Some tl => match times_of h tl with
+               | None => (h, Err EDangling)
+               | Some ts => if i <? length ts then (set_tl h tl (upd ts i q), Ok) else (h, Err EIndex)
                end
   end.
 
@@ -611,6 +696,13 @@ Definition exec (h : heap) (o : op) : heap * outcome :=
   | OTrGet k i => exec_trget h k i
   | OTlNew ks => exec_tlnew h ks
   | OTlRemoveShort l q => exec_tlremove h l q
+  | OTcCopy t => exec_tccopy h t
+  | OTcNewL cs j => exec_tcnewl h cs j
+  | OTrCopy k => exec_trcopy h k
+  | OTrNewL is j => exec_trnewl h is j
+  | OTlistNew ts => exec_tlistnew h ts
+  | OTlistAppend j q => exec_tlistappend h j q
+  | OTlistSet j i q => exec_tlistset h j i q
   end.
 
 Definition run (h : heap) (os : list op) : heap := fold_left (fun h o => fst (exec h o)) os h.
